@@ -339,7 +339,16 @@ done:
 	if !truncated {
 		for iter.Next() {
 			object := iter.Key().(string)
-			if matched := prefix.Match(object, &match); matched && !match.CommonPrefix {
+			matched := prefix.Match(object, &match)
+			if matched && match.CommonPrefix {
+				// Common prefixes do not count towards the limit; the ones
+				// between here and the next page have to be reported now
+				// or they would never be.
+				if !seenPrefixes[match.MatchedPart] {
+					result.CommonPrefixes = append(result.CommonPrefixes, match.AsCommonPrefix())
+					seenPrefixes[match.MatchedPart] = true
+				}
+			} else if matched {
 				truncated = true
 
 				// This is not especially defensive; it assumes the rest of the code works
